@@ -251,6 +251,7 @@ Definition run_conn_op (id : N) (i : nat) (k : cst) (op : arg) : cst * bytes :=
       write_line pre k (WWrote (Nat.min (N.to_nat n) len))
   | AL [AN 4] => write_line pre k WIntr
   | AL [AN 5] => write_line pre k WFail
+  | AL [AN 5; AN _] => write_line pre k WFail
   | AL [AN 7; r] =>
       let c' := enqueue_response c (response_of r) in
       (mkCst c' (k_rest k) (k_nextfd k), pre ++ B"enq pend=" ++ bit (pending_write c'))
